@@ -2,13 +2,16 @@ package rewriter
 
 import (
 	"go/ast"
+	"go/types"
 	"log"
+	"strings"
 
 	"github.com/goghcrow/go-ast-matcher"
 	"github.com/goghcrow/go-imports"
 	"github.com/goghcrow/go-loader"
 	"github.com/goghcrow/go-matcher"
 	. "github.com/goghcrow/go-matcher/combinator"
+	"golang.org/x/tools/go/ast/astutil"
 )
 
 type optimizer struct {
@@ -254,13 +257,66 @@ func (o *optimizer) etaReduction() {
 		return true
 	}
 
+	// f must be a declared (optional explicitly instantiated) function, and have the same type,
+	// otherwise the time of evaluating f is changed (variable, field, method value, calling),
+	// or f is not a value at all (builtin, conversion, generic function without instantiation)
+	reducible := func(ctx astmatcher.Ctx, lit *ast.FuncLit, fun ast.Expr) bool {
+		callee := astutil.Unparen(fun)
+		instantiated := false
+		switch idx := callee.(type) {
+		case *ast.IndexExpr:
+			callee, instantiated = idx.X, true
+		case *ast.IndexListExpr:
+			callee, instantiated = idx.X, true
+		}
+
+		var id *ast.Ident
+		switch callee := callee.(type) {
+		case *ast.Ident:
+			id = callee
+		case *ast.SelectorExpr:
+			x, _ := callee.X.(*ast.Ident)
+			if x == nil {
+				return false
+			}
+			if strings.HasPrefix(x.Name, cstIterVar) {
+				// method value of generated iterator variable, which is never reassigned
+				// e.g., func() bool { return ɪʇ.MoveNext() }
+				return true
+			}
+			// qualified identifier only
+			if !instanceof[*types.PkgName](ctx.ObjectOf(x)) {
+				return false
+			}
+			id = callee.Sel
+		default:
+			return false
+		}
+
+		fn, _ := ctx.ObjectOf(id).(*types.Func)
+		if fn == nil {
+			return false
+		}
+		sig := fn.Type().(*types.Signature)
+		if sig.Recv() != nil {
+			return false
+		}
+		if sig.TypeParams().Len() > 0 && !instantiated {
+			return false
+		}
+
+		litTy, funTy := ctx.TypeOf(lit), ctx.TypeOf(fun)
+		return litTy != nil && funTy != nil && types.Identical(litTy, funTy)
+	}
+
 	o.m.Match(
 		pattern,
 		func(c *astmatcher.Cursor, ctx astmatcher.Ctx) {
 			params := ctx.Binds["params"].(*ast.FieldList).List
 			args := ctx.Binds["args"].(ExprsNode)
-			if matched(ctx, params, args) {
-				c.Replace(ctx.Binds["fun"])
+			fun := ctx.Binds["fun"].(ast.Expr)
+			if matched(ctx, params, args) && reducible(ctx, c.Node().(*ast.FuncLit), fun) {
+				c.Replace(fun)
 			}
 		},
 	)
